@@ -42,6 +42,7 @@ import (
 	_ "verif/harness/c14"
 	_ "verif/harness/c17"
 	_ "verif/harness/c18"
+	_ "verif/harness/c19"
 )
 
 type replayFile struct {
